@@ -5,6 +5,7 @@
 package histgen
 
 import (
+	"encoding/binary"
 	"fmt"
 	"slices"
 	"math/big"
@@ -17,14 +18,19 @@ import (
 	"github.com/nspcc-dev/neo-go/pkg/compiler"
 	"github.com/nspcc-dev/neo-go/pkg/core"
 	"github.com/nspcc-dev/neo-go/pkg/core/block"
+	"github.com/nspcc-dev/neo-go/pkg/core/native"
 	"github.com/nspcc-dev/neo-go/pkg/core/native/nativenames"
 	"github.com/nspcc-dev/neo-go/pkg/core/native/noderoles"
+	"github.com/nspcc-dev/neo-go/pkg/core/state"
 	"github.com/nspcc-dev/neo-go/pkg/core/transaction"
 	"github.com/nspcc-dev/neo-go/pkg/crypto/keys"
 	"github.com/nspcc-dev/neo-go/pkg/neotest"
 	"github.com/nspcc-dev/neo-go/pkg/smartcontract"
 	"github.com/nspcc-dev/neo-go/pkg/smartcontract/manifest"
+	"github.com/nspcc-dev/neo-go/pkg/smartcontract/trigger"
 	"github.com/nspcc-dev/neo-go/pkg/util"
+	"github.com/nspcc-dev/neo-go/pkg/vm/stackitem"
+	"github.com/nspcc-dev/neo-go/pkg/vm/vmstate"
 	"github.com/nspcc-dev/neo-go/pkg/wallet"
 )
 
@@ -34,7 +40,9 @@ import (
 	"github.com/nspcc-dev/neo-go/pkg/interop"
 	"github.com/nspcc-dev/neo-go/pkg/interop/contract"
 	"github.com/nspcc-dev/neo-go/pkg/interop/iterator"
+	"github.com/nspcc-dev/neo-go/pkg/interop/native/ledger"
 	"github.com/nspcc-dev/neo-go/pkg/interop/native/management"
+	"github.com/nspcc-dev/neo-go/pkg/interop/native/oracle"
 	"github.com/nspcc-dev/neo-go/pkg/interop/runtime"
 	"github.com/nspcc-dev/neo-go/pkg/interop/storage"
 )
@@ -84,6 +92,28 @@ func Find(prefix []byte, opts int) []any {
 	}
 	return res
 }
+func OracleReq(url string, filter []byte, data any, gas int) {
+	oracle.Request(url, filter, "oracleCb", data, gas)
+}
+func OracleCb(url string, data any, code int, res []byte) {
+	storage.Put(storage.GetContext(), []byte("orc"), append([]byte{byte(code)}, res...))
+	runtime.Notify("E1", code)
+	if data != nil && data.(string) == "throw" {
+		panic("callback refuses")
+	}
+}
+func LedgerProbe(i int, h interop.Hash256) {
+	r := 0
+	if ledger.GetBlock(i) != nil {
+		r += 1
+	}
+	if ledger.GetTransaction(h) != nil {
+		r += 2
+	}
+	th := ledger.GetTransactionHeight(h)
+	st := ledger.GetTransactionVMState(h)
+	storage.Put(storage.GetContext(), []byte("led"), []byte{byte(r), byte(th + 1), byte(st)})
+}
 func Update(nef, manifest []byte) { management.Update(nef, manifest) }
 func Destroy()                    { management.Destroy() }
 func Version() int                { return variant }
@@ -124,6 +154,21 @@ type Gen struct {
 	// vote-affecting transaction between the re-registration and the committee refresh).
 	Churn2 neotest.SingleSigner
 	nvar  int
+	// PendingOracle are the ids of oracle requests seen in accepted blocks and not answered yet (as far as the
+	// generator knows); Answered keeps some answered ids (a second response must be refused).
+	PendingOracle []uint64
+	reqHeight     map[uint64]uint32
+	ReqTx         map[uint64]util.Uint256 // requesting transaction per oracle request id
+	// AvoidOldOracle: never answer a request whose requesting transaction may have left the traceability horizon
+	// (a node that collects old blocks cannot execute such a response the way an archival node does: known finding).
+	AvoidOldOracle bool
+	Answered      []uint64
+	// OldTxs are hashes of transactions of accepted blocks, oldest first.
+	OldTxs []util.Uint256
+	// QuietFrom..QuietTo (inclusive block indexes) is a stretch of empty blocks (long-chain worlds).
+	QuietFrom, QuietTo uint32
+	// Script adds a scripted transaction to the block of the given index (scenario steps of special worlds).
+	Script map[uint32]func() *transaction.Transaction
 	// Stats counts generated transaction kinds.
 	Stats  map[string]int
 	Faults int
@@ -134,7 +179,8 @@ type Gen struct {
 func DefaultWeights() map[string]int {
 	return map[string]int{"gas": 10, "neo": 8, "reg": 3, "unreg": 2, "vote": 8, "policy": 4, "wlfee": 4, "role": 2,
 		"deploy": 2, "update": 2, "destroy": 1, "kvput": 8, "kvdel": 4, "kvmany": 4, "kvfail": 4, "kvtry": 3,
-		"notary": 3, "notarylock": 1, "notarywd": 1, "notify": 2}
+		"notary": 3, "notarylock": 1, "notarywd": 1, "notify": 2,
+		"oraclereq": 3, "oracleresp": 4, "ledger": 3, "natcfg": 2}
 }
 
 // New funds nacc accounts on a fresh reference chain (consumes the first block).
@@ -255,7 +301,8 @@ func (g *Gen) pick() string {
 	}
 	x := g.R.Intn(tot)
 	// deterministic order
-	keys := []string{"gas", "neo", "reg", "unreg", "vote", "policy", "wlfee", "role", "deploy", "update", "destroy", "kvput", "kvdel", "kvmany", "kvfail", "kvtry", "notary", "notarylock", "notarywd", "notify"}
+	keys := []string{"gas", "neo", "reg", "unreg", "vote", "policy", "wlfee", "role", "deploy", "update", "destroy", "kvput", "kvdel", "kvmany", "kvfail", "kvtry", "notary", "notarylock", "notarywd", "notify",
+		"oraclereq", "oracleresp", "ledger", "natcfg"}
 	for _, k := range keys {
 		if x < g.Weights[k] {
 			return k
@@ -287,7 +334,7 @@ func (g *Gen) one() *transaction.Transaction {
 	i, a := g.acct()
 	sa := []neotest.Signer{a}
 	var com []neotest.Signer
-	if kind == "policy" || kind == "role" || kind == "wlfee" {
+	if kind == "policy" || kind == "role" || kind == "wlfee" || kind == "natcfg" {
 		com = g.committee()
 	}
 	var tx *transaction.Transaction
@@ -396,7 +443,7 @@ func (g *Gen) one() *transaction.Transaction {
 			tx = g.tx(com, g.hash(nativenames.Policy), "setWhitelistFeeContract", kv, m[0], m[1], int64(1+g.R.Intn(5))*1_0000000)
 		}
 	case "role":
-		roles := []noderoles.Role{noderoles.StateValidator, noderoles.Oracle, noderoles.P2PNotary, noderoles.NeoFSAlphabet}
+		roles := []noderoles.Role{noderoles.StateValidator, noderoles.Oracle, noderoles.P2PNotary, noderoles.NeoFSAlphabet, noderoles.Oracle}
 		n := 1 + g.R.Intn(3)
 		var ks []any
 		for j := 0; j < n; j++ {
@@ -471,6 +518,53 @@ func (g *Gen) one() *transaction.Transaction {
 	case "notarywd":
 		_, b := g.acct()
 		tx = g.tx(sa, g.hash(nativenames.Notary), "withdraw", a.ScriptHash(), b.ScriptHash())
+	case "oraclereq":
+		// a scenario contract asks the native Oracle for data; the request stays pending until an "oracleresp"
+		// transaction (possibly much later: beyond MaxTraceableBlocks in the worlds where that is small) answers it
+		if len(g.KVs) == 0 {
+			return nil
+		}
+		c := g.KVs[g.R.Intn(len(g.KVs))]
+		urls := []string{"https://a.example/1", "https://a.example/2", "https://b.example/x"}
+		var filter, data any
+		if g.R.Intn(3) == 0 {
+			filter = []byte("$.f")
+		}
+		if g.R.Intn(5) == 0 {
+			data = "throw"
+		}
+		tx = g.tx(sa, c, "oracleReq", urls[g.R.Intn(len(urls))], filter, data, int64(1+g.R.Intn(6))*5000_0000)
+	case "oracleresp":
+		tx = g.OracleResponse()
+	case "ledger":
+		// a contract looks at the ledger's past: blocks and transactions around the traceability horizon
+		if len(g.KVs) == 0 || len(g.OldTxs) == 0 {
+			return nil
+		}
+		c := g.KVs[g.R.Intn(len(g.KVs))]
+		h := g.BC.BlockHeight()
+		idx := int64(g.R.Intn(int(h) + 2))
+		if mtb := int64(g.BC.GetConfig().MaxTraceableBlocks); g.R.Intn(2) == 0 && int64(h) > mtb {
+			idx = int64(h) - mtb + int64(g.R.Intn(5)) - 2 // right at the horizon
+		}
+		old := g.OldTxs[g.R.Intn(len(g.OldTxs))]
+		if g.R.Intn(2) == 0 {
+			old = g.OldTxs[g.R.Intn(1+len(g.OldTxs)/8)] // one of the oldest
+		}
+		tx = g.tx(sa, c, "ledgerProbe", idx, old.BytesBE())
+	case "natcfg":
+		switch g.R.Intn(5) {
+		case 0:
+			tx = g.tx(com, g.hash(nativenames.Oracle), "setPrice", int64(1+g.R.Intn(9))*1000_0000)
+		case 1:
+			tx = g.tx(com, g.hash(nativenames.Notary), "setMaxNotValidBeforeDelta", int64(20+g.R.Intn(100)))
+		case 2:
+			tx = g.tx(com, g.hash(nativenames.Policy), "setAttributeFee", int64([]transaction.AttrType{transaction.HighPriority, transaction.OracleResponseT, transaction.NotValidBeforeT, transaction.ConflictsT, transaction.NotaryAssistedT}[g.R.Intn(5)]), int64(g.R.Intn(5))*100_0000)
+		case 3:
+			tx = g.tx(com, g.hash(nativenames.Management), "setMinimumDeploymentFee", int64(5+g.R.Intn(10))*1_0000_0000)
+		case 4:
+			tx = g.tx(com, g.hash(nativenames.Neo), "setRegisterPrice", int64(3+g.R.Intn(5))*1_0000_0000)
+		}
 	}
 	if tx != nil {
 		g.Stats[kind]++
@@ -530,6 +624,9 @@ func (g *Gen) churnTx() *transaction.Transaction {
 
 // NextTxs builds up to max transactions valid together (filtered through the reference node's own mempool).
 func (g *Gen) NextTxs(max int) []*transaction.Transaction {
+	if g.IsQuiet(g.BC.BlockHeight() + 1) {
+		return nil
+	}
 	var cand []*transaction.Transaction
 	if g.BC.BlockHeight() == 0 {
 		cand = g.Bootstrap()
@@ -547,6 +644,12 @@ func (g *Gen) NextTxs(max int) []*transaction.Transaction {
 	}
 	if tx := g.churnTx(); tx != nil {
 		cand = append(cand, tx)
+	}
+	if f := g.Script[g.BC.BlockHeight()+1]; f != nil {
+		if tx := f(); tx != nil {
+			cand = append([]*transaction.Transaction{tx}, cand...)
+			g.Stats["scripted"]++
+		}
 	}
 	var txs []*transaction.Transaction
 	for _, tx := range cand {
@@ -572,7 +675,191 @@ func (g *Gen) NextBlock(maxTx int) (*block.Block, error) {
 	if err := g.BC.AddBlock(b); err != nil {
 		return nil, fmt.Errorf("reference chain rejected generated block %d: %w", b.Index, err)
 	}
+	g.Harvest(b)
 	return b, nil
 }
 
+// IsQuiet tells whether block h belongs to the stretch of empty blocks.
+func (g *Gen) IsQuiet(h uint32) bool { return g.QuietFrom != 0 && h >= g.QuietFrom && h <= g.QuietTo }
+
+// harvest remembers what later transactions refer to: transaction hashes, oracle requests made and answered.
+func (g *Gen) Harvest(b *block.Block) {
+	orc := g.hash(nativenames.Oracle)
+	for _, tx := range b.Transactions {
+		if len(g.OldTxs) < 4000 {
+			g.OldTxs = append(g.OldTxs, tx.Hash())
+		}
+		for _, a := range tx.GetAttributes(transaction.OracleResponseT) {
+			id := a.Value.(*transaction.OracleResponse).ID
+			if k := slices.Index(g.PendingOracle, id); k >= 0 {
+				g.PendingOracle = slices.Delete(g.PendingOracle, k, k+1)
+				g.Answered = append(g.Answered, id)
+			}
+		}
+		aers, err := g.BC.GetAppExecResults(tx.Hash(), trigger.Application)
+		if err != nil {
+			continue
+		}
+		for _, aer := range aers {
+			if aer.VMState != vmstate.Halt {
+				continue
+			}
+			for _, ev := range aer.Events {
+				if ev.ScriptHash == orc && ev.Name == "OracleRequest" {
+					if arr := ev.Item.Value().([]stackitem.Item); len(arr) > 0 {
+						if id, err := arr[0].TryInteger(); err == nil {
+							g.PendingOracle = append(g.PendingOracle, id.Uint64())
+							if g.reqHeight == nil {
+								g.reqHeight = map[uint64]uint32{}
+							}
+							g.reqHeight[id.Uint64()] = b.Index
+							if g.ReqTx == nil {
+								g.ReqTx = map[uint64]util.Uint256{}
+							}
+							g.ReqTx[id.Uint64()] = tx.Hash()
+						}
+					}
+				}
+			}
+		}
+	}
+}
+
+// oracleResponse builds the response transaction for a pending request (sometimes for an answered or unknown one,
+// which the pool must refuse) the way the oracle service does: the native Oracle contract pays from the prepaid GAS,
+// the designated oracle nodes co-sign with their majority multisignature.
+func (g *Gen) OracleResponse() (tx *transaction.Transaction) {
+	defer func() {
+		if r := recover(); r != nil {
+			tx = nil
+		}
+	}()
+	var id uint64
+	switch x := g.R.Intn(12); {
+	case x == 0 && len(g.Answered) > 0:
+		id = g.Answered[g.R.Intn(len(g.Answered))]
+	case x == 1:
+		id = uint64(1000 + g.R.Intn(10))
+	case len(g.PendingOracle) == 0:
+		return nil
+	default:
+		// every third request is a slow one: where the traceability horizon is near, it is answered only after the
+		// requesting transaction has left it
+		var ready []uint64
+		mtb := g.BC.GetConfig().MaxTraceableBlocks
+		for _, p := range g.PendingOracle {
+			if p%3 == 0 && mtb < 100 && g.BC.BlockHeight() < g.reqHeight[p]+mtb+2 && !g.AvoidOldOracle {
+				continue
+			}
+			if g.AvoidOldOracle && g.BC.BlockHeight()+4 > g.reqHeight[p]+mtb {
+				continue
+			}
+			ready = append(ready, p)
+		}
+		if len(ready) == 0 {
+			return nil
+		}
+		id = ready[g.R.Intn(len(ready))]
+		if x < 6 {
+			id = ready[0] // the oldest one
+		}
+	}
+	pubs, _, err := g.BC.GetDesignatedByRole(noderoles.Oracle)
+	if err != nil || len(pubs) == 0 {
+		return nil
+	}
+	known := map[string]*keys.PrivateKey{}
+	for i := range g.Accts {
+		k := chainkit.Key(fmt.Sprintf("acct-%d", i))
+		known[string(k.PublicKey().Bytes())] = k
+	}
+	m := smartcontract.GetDefaultHonestNodeCount(len(pubs))
+	var accs []*wallet.Account
+	for _, p := range pubs {
+		if k, ok := known[string(p.Bytes())]; ok {
+			a := wallet.NewAccountFromPrivateKey(k)
+			if err := a.ConvertMultisig(m, slices.Clone(pubs)); err != nil {
+				return nil
+			}
+			accs = append(accs, a)
+		}
+	}
+	if len(accs) < m {
+		return nil
+	}
+	nodes := neotest.NewMultiSigner(accs...)
+	orc := g.hash(nativenames.Oracle)
+	resp := &transaction.OracleResponse{ID: id, Code: transaction.Success, Result: g.val()}
+	if g.R.Intn(4) == 0 {
+		resp.Code = []transaction.OracleResponseCode{transaction.NotFound, transaction.Timeout, transaction.Forbidden, transaction.Error}[g.R.Intn(4)]
+		resp.Result = nil
+	}
+	tx = transaction.New(native.CreateOracleResponseScript(orc), 0)
+	tx.Nonce = uint32(id)<<8 + uint32(g.R.Intn(256))
+	tx.ValidUntilBlock = g.BC.BlockHeight() + 5
+	tx.Attributes = []transaction.Attribute{{Type: transaction.OracleResponseT, Value: resp}}
+	tx.Signers = []transaction.Signer{{Account: orc, Scopes: transaction.None}, {Account: nodes.ScriptHash(), Scopes: transaction.None}}
+	// fees: together exactly what the request prepaid; the network part generously covers size and both witnesses
+	total := int64(5000_0000) * int64(1+g.R.Intn(6))
+	if cs := g.BC.GetContractState(orc); cs != nil && g.R.Intn(8) != 0 {
+		key := append([]byte{7}, make([]byte, 8)...)
+		binary.BigEndian.PutUint64(key[1:], id)
+		if si := g.BC.GetStorageItem(cs.ID, key); si != nil {
+			var req state.OracleRequest
+			if it, err := stackitem.Deserialize(si); err == nil && req.FromStackItem(it) == nil {
+				total = int64(req.GasForResponse) // exactly what was prepaid (the usual case)
+			}
+		}
+	}
+	tx.NetworkFee = 2500_0000 + int64(g.R.Intn(3))*500_0000
+	tx.SystemFee = total - tx.NetworkFee
+	tx.Scripts = []transaction.Witness{{InvocationScript: []byte{}, VerificationScript: []byte{}},
+		{InvocationScript: nodes.SignHashable(uint32(g.BC.GetConfig().Magic), tx), VerificationScript: nodes.Script()}}
+	return tx
+}
+
 var _ = big.NewInt
+
+// Tx and SafeDeploy are the exported forms of the transaction builders (probes and scenario drivers).
+func (g *Gen) Tx(signers []neotest.Signer, h util.Uint160, method string, args ...any) *transaction.Transaction {
+	return g.tx(signers, h, method, args...)
+}
+func (g *Gen) SafeDeploy(a neotest.SingleSigner, c *neotest.Contract) *transaction.Transaction {
+	return g.safeDeploy(a, c)
+}
+
+// ScriptOldOracle schedules the life-cycle "deploy, designate an oracle node, request at block 5, answer at block
+// answerAt" (the request is a slow one: nothing answers it earlier where the traceability horizon is near).
+func (g *Gen) ScriptOldOracle(answerAt uint32) {
+	a := g.Accts[0]
+	g.Script = map[uint32]func() *transaction.Transaction{
+		3: func() *transaction.Transaction {
+			g.nvar++
+			c := KV(g.T, a.ScriptHash(), g.nvar, g.nvar)
+			tx := g.safeDeploy(a, c)
+			if tx != nil {
+				g.KVs = append(g.KVs, c.Hash)
+				g.kvName[c.Hash] = g.nvar
+				g.AllKVs = append(g.AllKVs, c.Hash)
+			}
+			return tx
+		},
+		4: func() *transaction.Transaction {
+			return g.tx(g.committee(), g.hash(nativenames.Designation), "designateAsRole", int64(noderoles.Oracle), []any{a.Account().PublicKey().Bytes()})
+		},
+		5: func() *transaction.Transaction {
+			if len(g.KVs) == 0 {
+				return nil
+			}
+			return g.tx([]neotest.Signer{a}, g.KVs[0], "oracleReq", "https://a.example/old", nil, nil, int64(1_0000_0000))
+		},
+		answerAt: func() *transaction.Transaction {
+			for i := 0; i < 40; i++ {
+				if tx := g.OracleResponse(); tx != nil && len(g.PendingOracle) > 0 && tx.Attributes[0].Value.(*transaction.OracleResponse).ID == g.PendingOracle[0] {
+					return tx
+				}
+			}
+			return nil
+		},
+	}
+}
